@@ -276,6 +276,39 @@ func (ex *Exec) oblige(st *State, kind, name string, goal *Term, node ast.Node) 
 	ex.obls = append(ex.obls, o)
 }
 
+// staticTrue records an obligation that the generator itself decides (once per site and mode).
+func (ex *Exec) staticTrue(kind, name, why string, node ast.Node) {
+	full := ex.fnName + "/" + name + ex.modeSuffix()
+	for _, o := range ex.obls {
+		if o.Name == full {
+			return
+		}
+	}
+	t := true
+	o := &Obligation{Name: full, Prop: ex.ct.Props, Func: ex.fi.Key, Kind: kind, Mode: ex.mode, Goal: True, Static: &t, Note: why}
+	if node != nil {
+		o.Pos = ex.pos(node)
+	}
+	ex.obls = append(ex.obls, o)
+}
+
+// pureCond: the operands of a loop condition can be evaluated a second time without effect (no calls but len/cap)
+func pureCond(e ast.Expr) bool {
+	pure := true
+	ast.Inspect(e, func(n ast.Node) bool {
+		if c, ok := n.(*ast.CallExpr); ok {
+			if id, ok := c.Fun.(*ast.Ident); !ok || (id.Name != "len" && id.Name != "cap" && id.Name != "int" && id.Name != "uint32" && id.Name != "uint64" && id.Name != "int64") {
+				pure = false
+			}
+		}
+		if u, ok := n.(*ast.UnaryExpr); ok && u.Op == token.ARROW {
+			pure = false
+		}
+		return pure
+	})
+	return pure
+}
+
 func (ex *Exec) modeSuffix() string {
 	if ex.mode == "" {
 		return ""
@@ -347,6 +380,7 @@ func (ex *Exec) freshVal(st *State, k *Kind, hint string) Val {
 		}
 		s := &SliceV{Elem: k.Elem, Len: Fresh(hint+".len", SInt), Tag: newTag()}
 		st.assume(Ge(s.Len, Zero))
+		st.assume(Le(s.Len, maxSliceLen))
 		switch k.Elem.K {
 		case "slice":
 			if k.Elem.Elem.K == "slice" {
@@ -356,7 +390,7 @@ func (ex *Exec) freshVal(st *State, k *Kind, hint string) Val {
 			s.Arr = Fresh(hint, SArr(SInt, SArr(SInt, k.Elem.Elem.sortOf())))
 			s.Lens = Fresh(hint+".lens", SArrInt)
 			i := Var(fmt.Sprintf("i!q%d", nextQ()), SInt)
-			st.assume(Quant("forall", []*Term{i}, Ge(Select(s.Lens, i), Zero), []*Term{Select(s.Lens, i)}))
+			st.assume(Quant("forall", []*Term{i}, And(Ge(Select(s.Lens, i), Zero), Le(Select(s.Lens, i), maxSliceLen)), []*Term{Select(s.Lens, i)}))
 			if inv := ex.rangeInv(k.Elem.Elem, Zero); !inv.IsTrue() || k.Elem.Elem.K == "var" {
 				j := Var(fmt.Sprintf("j!q%d", nextQ()), SInt)
 				e := Select(Select(s.Arr, i), j)
@@ -1181,7 +1215,7 @@ func (ex *Exec) execStmt(st *State, s ast.Stmt) []*State {
 		if n.Tok == token.DEC {
 			d = IntLit(-1)
 		}
-		ex.storeRef(st, r, SV{T: Add(v.T, d)}, n)
+		ex.storeRef(st, r, ex.arithResult(st, SV{T: Add(v.T, d)}, ex.info.TypeOf(n.X), n), n)
 		return []*State{st}
 	case *ast.ReturnStmt:
 		var rets []Val
@@ -1927,6 +1961,7 @@ func (ex *Exec) execFor1(st *State, n *ast.ForStmt, ord int) []*State {
 		work = next
 	}
 	ex.loopOrd = savedOrd + ex.countLoops(n.Body)
+	ex.staticTrue("termination", fmt.Sprintf("loop#%d/termination", ord), fmt.Sprintf("unrolled: the condition is decided on every path, %d iterations at most", iter-1), n)
 	return exits
 }
 
@@ -2052,6 +2087,31 @@ func (ex *Exec) execLoopInv(st *State, spec *LoopSpec, ord int, node ast.Node, c
 	if spec.Decreases != nil {
 		dec0 = ex.cenv(bs, pos).evalTerm(spec.Decreases)
 	}
+	// no decreases clause: the variant is read off a condition of the form a < b, a <= b, a > b, a >= b over integers
+	autoVariant := func(s *State) *Term { return nil }
+	if spec.Decreases == nil && cond != nil {
+		if be, ok := cond.(*ast.BinaryExpr); ok && isIntT(ex.info.TypeOf(be.X)) && isIntT(ex.info.TypeOf(be.Y)) && pureCond(be) {
+			autoVariant = func(s *State) *Term {
+				ex.cur = s
+				a, b := ex.evalExpr(s, be.X).(SV).T, ex.evalExpr(s, be.Y).(SV).T
+				switch be.Op {
+				case token.LSS:
+					return Sub(b, a)
+				case token.LEQ:
+					return Add(Sub(b, a), One)
+				case token.GTR:
+					return Sub(a, b)
+				case token.GEQ:
+					return Add(Sub(a, b), One)
+				}
+				return nil
+			}
+		}
+	}
+	auto0 := autoVariant(bs)
+	if spec.Decreases == nil && auto0 == nil {
+		ex.note("termination of loop %d of %s is not proved (no decreases clause, condition not of the form a < b)", ord, ex.fi.Key)
+	}
 	if pre != nil {
 		pre(bs)
 	}
@@ -2077,6 +2137,8 @@ func (ex *Exec) execLoopInv(st *State, spec *LoopSpec, ord int, node ast.Node, c
 			if dec0 != nil {
 				d1 := ex.cenv(o, pos).evalTerm(spec.Decreases)
 				ex.oblige(o, "decreases", fmt.Sprintf("loop#%d/decreases.%d", ord, k), And(Ge(dec0, Zero), Lt(d1, dec0)), node)
+			} else if auto0 != nil {
+				ex.oblige(o, "termination", fmt.Sprintf("loop#%d/termination.%d", ord, k), And(Ge(auto0, Zero), Lt(autoVariant(o), auto0)), node)
 			}
 			// canary for the loop body
 			ex.obls = append(ex.obls, &Obligation{Name: fmt.Sprintf("%s/loop#%d/canary.%d%s", ex.fnName, ord, k, ex.modeSuffix()), Prop: ex.ct.Props, Func: ex.fi.Key,
@@ -2248,6 +2310,7 @@ func (ex *Exec) execRange1(st *State, n *ast.RangeStmt, ord int) []*State {
 			kname = kobj.Name()
 		}
 		st.store[kc] = SV{T: Zero}
+		ex.staticTrue("termination", fmt.Sprintf("loop#%d/termination", ord), "range loop: the hidden counter runs to a length evaluated once", n)
 		return ex.execLoopInvRange(st, spec, ord, n, kc, kname, length, elemAt, assign)
 	}
 	cnt := int(length.Int64())
@@ -2284,6 +2347,7 @@ func (ex *Exec) execRange1(st *State, n *ast.RangeStmt, ord int) []*State {
 		work = next
 	}
 	ex.loopOrd = savedOrd + ex.countLoops(n.Body)
+	ex.staticTrue("termination", fmt.Sprintf("loop#%d/termination", ord), fmt.Sprintf("range loop over a literal length %d", cnt), n)
 	return append(work, exits...)
 }
 
